@@ -3,14 +3,14 @@
 package zzverif
 
 import (
-	"time"
-	"regexp"
 	"encoding/json"
 	"fmt"
 	"math/big"
 	"os"
 	"reflect"
+	"regexp"
 	"strings"
+	"time"
 )
 
 type rat = big.Rat
@@ -347,10 +347,10 @@ func QPow10(k int) Q {
 	}
 	return mk(new(big.Rat).SetFrac(big.NewInt(1), new(big.Int).Exp(big.NewInt(10), big.NewInt(int64(-k)), nil)))
 }
-func QEq(a, b Q) bool  { return a.p.Cmp(b.p) == 0 }
-func QLt(a, b Q) bool  { return a.p.Cmp(b.p) < 0 }
-func QLe(a, b Q) bool  { return a.p.Cmp(b.p) <= 0 }
-func QIsInt(a Q) bool  { return a.p.IsInt() }
+func QEq(a, b Q) bool   { return a.p.Cmp(b.p) == 0 }
+func QLt(a, b Q) bool   { return a.p.Cmp(b.p) < 0 }
+func QLe(a, b Q) bool   { return a.p.Cmp(b.p) <= 0 }
+func QIsInt(a Q) bool   { return a.p.IsInt() }
 func QParse(s string) Q { return mk(parseDec(s)) }
 
 // DecStrOK: s is "" or a finite non-negative plain decimal with at most places decimals.
@@ -381,10 +381,10 @@ func DecPlain(s string) bool { return !strings.ContainsAny(s, "eE") }
 
 // ---- accessors for package-specific fillers (replay)
 
-func CexHas(label string) bool    { _, ok := cexRaw(label); return ok }
-func CexBool(label string) bool   { return cexBool(label) }
-func CexInt(label string) int64   { return cexInt(label) }
-func CexStr(label string) string  { return cexStr(label) }
+func CexHas(label string) bool   { _, ok := cexRaw(label); return ok }
+func CexBool(label string) bool  { return cexBool(label) }
+func CexInt(label string) int64  { return cexInt(label) }
+func CexStr(label string) string { return cexStr(label) }
 func CexBig(label string) *big.Int {
 	v, ok := cexRaw(label)
 	if !ok {
